@@ -95,6 +95,16 @@ PROPOSED_FINDINGS = [
      "witness": {"src": "match a & 3:\n case 0: r.prepare(7)\n case _ if a > 0: r.prepare(5)\n case _: r.prepare(2)", "history": [{"a": 1}], "signal": "r", "sim": 5, "verilog": 2},
      "what": "`case _ if guard:` is taken as the Verilog `default:` with the guard silently dropped (ReplaceMatch tests the wildcard before looking "
              "at c.guard), and a later `case _:` overwrites it: a=1 gives Python 5, Verilog 2"},
+    {"id": "C02-nonint-const-accepted", "property": "C02", "status": "known", "anchor": "py4hw/transpilation/python2verilog_transpilation.py:607",
+     "class_expr": "r.get('kind')=='accepted-unsupported' and r.get('construct') in ('const-bytes','const-none','const-ellipsis','string-const')",
+     "witness": {"src": "x = b\"a\"; self.r.prepare(self.a.get())"},
+     "what": "constants that are neither int nor float are not refused in method bodies: `x = b\"a\"` is emitted as `x=b'a';` (not Verilog), "
+             "`x = None` / `x = ...` / `x = \"abc\"` as `x=None;` / `x=Ellipsis;` / `x=abc;` (undeclared identifiers); candidate repair /tmp/C02_nonint_const.diff"},
+    {"id": "C02-bare-expr-accepted", "property": "C02", "status": "known", "anchor": "py4hw/transpilation/python2verilog_transpilation.py:545",
+     "class_expr": "r.get('kind')=='accepted-unsupported' and r.get('construct')=='bare-expr-stmt'",
+     "witness": {"src": "self.a.get() + 1\nself.r.prepare(self.a.get())"},
+     "what": "a bare expression statement (`self.a.get() + 1` on its own line) is not refused: ReplaceExpr drops the ast.Expr wrapper and the "
+             "expression text `a+1` is emitted in statement position (not Verilog); candidate repair /tmp/C02_bare_expr.diff"},
     {"id": "C02-new-attr-uninit", "property": "C02", "status": "known", "anchor": "py4hw/transpilation/python2verilog_transpilation.py:596",
      "class_expr": "('new-attr' in r.get('reasons', []) or 'state-in-comb' in r.get('reasons', []) or 'port-as-value' in r.get('reasons', []) "
                    "or 'neg-const' in r.get('reasons', [])) and r.get('kind') in ('mismatch','x-after-write','x-state','x-consequence','unparseable','v-error')",
@@ -288,8 +298,12 @@ class Dut:
 
     def run_real(self, history):
         """history: list of {port: value}. -> list of {'ports': {port: v}, 'state': {attr: v}} per cycle, error or None"""
-        with contextlib.redirect_stdout(io.StringIO()):
-            sim = self.hw.getSimulator()
+        try:
+            with contextlib.redirect_stdout(io.StringIO()):
+                sim = self.hw.getSimulator()
+        except Exception as e:
+            # a propagate() that raises already in Simulator.__init__ (all wires 0): the Python method is outside its own domain
+            return [], f'{type(e).__name__}: {str(e)[:60]} (in Simulator.__init__)'
         out, err = [], None
         for cyc in history:
             for n, v in cyc.items():
@@ -421,7 +435,16 @@ class Batch:
         t_drv = time.time()
         for i, jb in enumerate(self.jobs):
             lo = out[spans[i][0]:spans[i][1]] if out is not None else None
-            self.judge(jb, lo, vmap.get(i))
+            try:
+                self.judge(jb, lo, vmap.get(i))
+            except Exception as e:
+                d_ = jb['dut']
+                if d_.profile in ('safe', 'wild', 'refuse', 'nest'):
+                    # a generated class that cannot be simulated / judged is a generator fault: recorded and skipped
+                    res.hist('generator_faults', f'{d_.profile}:{type(e).__name__}')
+                    res.notes.append(f'generator fault on {d_.label}: {type(e).__name__}: {str(e)[:80]}') if len(res.notes) < 10 else None
+                else:
+                    res.broken.append(('correspondence', 'harness-exception', f'{d_.label}: {type(e).__name__}: {str(e)[:200]}'))
         res.hist('timing_s', 'drivers', round(t_drv - t_run))
         res.hist('timing_s', 'judge', round(time.time() - t_drv))
         self.jobs = []
